@@ -164,8 +164,76 @@ def pat_formula(pat):
     return TRUE
 
 
+_SOME_KEEP = {"ok", "map", "cloned", "copied", "as_ref", "as_mut", "as_deref", "as_deref_mut", "ok_or", "ok_or_else", "map_err", "inspect", "take", "clone", "into", "unwrap_or_default"}
+
+
+def someness(fn, e, atomize, prog=None, depth=0):
+    """formula `this Option / Result expression is Some / Ok` - through `b.then_some(..)`, `b.then(..)`,
+    Some(..) / None, single-assignment locals, value-preserving adapters, and crate functions (the
+    disjunction over their return paths)"""
+    from .prov import return_exprs
+
+    if depth > 5 or e is None:
+        return _opaque(e or {"k": "?"})
+    e0 = hir.peel(e)
+    k = e0.get("k")
+    if k == "MethodCall":
+        m = e0["method"]
+        if m in ("then_some", "then"):
+            return from_expr(fn, e0["recv"], atomize, prog, depth + 1)
+        if m in _SOME_KEEP:
+            return someness(fn, e0["recv"], atomize, prog, depth + 1)
+    if k == "Call":
+        f0 = hir.peel(e0["f"])
+        cp = (f0.get("res") or {}).get("ctor_path") if f0.get("k") == "Path" else None
+        if cp and cp.split("::")[-1] in ("Some", "Ok"):
+            return TRUE
+        if cp and cp.split("::")[-1] in ("Err",):
+            return FALSE
+        nm = hir.callee_name(e0) or ""
+        if nm == "branch" and hir.call_args(e0):
+            return someness(fn, hir.call_args(e0)[0], atomize, prog, depth + 1)
+    if k == "Path" and ((e0.get("res") or {}).get("ctor_path") or "").split("::")[-1] == "None":
+        return FALSE
+    l = hir.local_of(e0)
+    if l is not None:
+        b = fn.bindings().get(l[0])
+        if b and b["origin"][0] == "let" and b["origin"][1] is not None and not b["origin"][2] and not fn.assignments_to(l[0]):
+            return someness(fn, b["origin"][1], atomize, prog, depth + 1)
+    if prog is not None and hir.is_call(e0):
+        g = prog.resolve_local(e0)
+        if g is not None and g.body is not None and not g.rec.get("gen") and any(t in (g.rec.get("ret") or "") for t in ("Option<", "Result<")):
+            alts = []
+            for conds, v in hir.decision_paths(g.body):
+                if v is None:
+                    continue
+                cs = []
+                for ce, cv in conds:
+                    if ce.get("k") == "PatCond":
+                        cs.append(from_cond(g, {"t": "pat", "scrut": ce["scrut"], "pat": ce["pat"], "v": cv}, atomize, prog))
+                    elif ce.get("k") == "ArmNot":
+                        cs.append(from_cond(g, {"t": "arm_not", "scrut": ce["scrut"], "pat": ce["pat"], "guard": ce.get("guard")}, atomize, prog) if cv else TRUE)
+                    else:
+                        f_ = from_expr(g, ce, atomize, prog, depth + 1)
+                        cs.append(f_ if cv else neg(f_))
+                alts.append(conj(cs + [someness(g, v, atomize, prog, depth + 1)]))
+            if alts:
+                return disj(alts)
+    return _opaque(e0)
+
+
 def from_cond(fn, c, atomize, prog=None):
     t = c.get("t")
+    if t == "try":
+        return someness(fn, c["e"], atomize, prog)
+    if t == "pat" and prog is not None and c.get("scrut") is not None:
+        v_ = str(hir.pat_variant(c["pat"])).split("::")[-1]
+        sc_ = hir.peel(c["scrut"])
+        if v_ in ("Some", "Ok", "None", "Err") and (hir.is_call(sc_) or hir.local_of(sc_) is not None) and any(t_ in (sc_.get("ty") or "") for t_ in ("Option<", "Result<")):
+            f_ = someness(fn, sc_, atomize, prog)
+            if f_[0] != "atom" or not f_[1].startswith("?"):
+                pos = f_ if v_ in ("Some", "Ok") else neg(f_)
+                return pos if c["v"] else neg(pos)
     if t == "bool":
         f = from_expr(fn, c["e"], atomize, prog)
         return f if c["v"] else neg(f)
